@@ -52,12 +52,18 @@ Definition as_obs (o : kop) : obs_op :=
   {| oo_lab := match ko_tap o with Some v => EnvStore (ko_pid o) v | None => EnvDelete (ko_pid o) end; oo_inv := ko_inv o; oo_ret := ko_ret o |}.
 Definition countN (x : N) (l : list N) : nat := List.length (filter (N.eqb x) l).
 
+(* a version (tap) that is stored by more than one successful call -- a pipeline registered again exactly as it is -- has no
+   single registration interval: the delivery bounds (proved for unique versions) are not applied to it; the linearizability
+   oracle covers those histories *)
+Definition stores_of (v : N) (ks : list kop) : nat :=
+  List.length (filter (fun o => match ko_tap o with Some v' => N.eqb v' v | None => false end) ks).
 Definition check_send (ks : list kop) (failed : list N) (i : N) (s : csend) : list (N * N * ckind2) :=
   let tag := map (fun k => (i, 9%N, k)) in
   tag (flat_map (fun r =>
     match ko_tap r with
     | None => []
     | Some v =>
+        if Nat.ltb 1 (stores_of v ks) then [] else
         let c := countN v (cs_seen s) in
         if negb (N.eqb (ko_ety r) (cs_ety s)) then (if Nat.ltb 0 c then [KWrongType] else []) else
         let others := map as_obs (filter (fun o => same_key o r && negb (same_kop o r)) ks) in
@@ -72,7 +78,8 @@ Definition check_send (ks : list kop) (failed : list N) (i : N) (s : csend) : li
                                              match ko_tap o with Some v' => negb (N.eqb v' v) && Nat.ltb 0 (countN v' (cs_seen s)) | None => false end) ks
          then [KTwoVersions] else [])
     end) ks ++
-  (if existsb (fun t => Nat.ltb 0 (countN t (cs_seen s))) failed then [KGhost] else [])).
+  (* a tap that only ever occurred in FAILED registrations was never stored *)
+  (if existsb (fun t => Nat.eqb (stores_of t ks) 0 && Nat.ltb 0 (countN t (cs_seen s))) failed then [KGhost] else [])).
 
 Fixpoint check_sends (ks : list kop) (failed : list N) (i : N) (ss : list csend) : list (N * N * ckind2) :=
   match ss with [] => [] | s :: t => check_send ks failed i s ++ check_sends ks failed (N.succ i) t end.
